@@ -133,6 +133,7 @@ def run(ch, config, res):
         nops = 1 + wl.int("nops", 10)
     allvalues = []
     kinds = set()
+    stash = [None]
 
     def find(n):
         for i, m in enumerate(model):
@@ -144,8 +145,8 @@ def run(ch, config, res):
     while failure is None and i < nops:
         i += 1
         with ch.scope("op#%d" % i):
-            k = wl.weighted("op", [6, 3, 2, 2, 1, 1, 1, 2, 2]) if model else 0
-            op = ["add", "update", "replace", "disable", "enable", "move", "remove", "restart", "readback"][k]
+            k = wl.weighted("op", [6, 3, 2, 2, 1, 1, 1, 2, 2, 2, 2]) if model else 0
+            op = ["add", "update", "replace", "disable", "enable", "move", "remove", "restart", "readback", "stash", "unstash"][k]
             n = NAMES[wl.int("name", len(NAMES))]
             label = "op %d %s(%s)" % (i, op, n)
             if op in ("add", "update"):
@@ -210,6 +211,23 @@ def run(ch, config, res):
                 E.classify(lambda: fsb.removefilter(n))
                 if rc[0] == "ok":
                     del model[find(n)]
+            elif op == "stash":
+                # keep the object getfilter() returns, to put it back later (an "undo")
+                c, cb = fs.getfilter(n), fsb.getfilter(n)
+                if c is not None and cb is not None:
+                    m = model[find(n)]
+                    stash[0] = (c, cb, m.struct, m.values)
+                continue
+            elif op == "unstash":
+                if stash[0] is None or find(n) == -1:
+                    continue
+                c, cb, st_struct, st_values = stash[0]
+                rc = E.classify(lambda: fs.replacefilter(n, c))
+                E.classify(lambda: fsb.replacefilter(n, cb))
+                if rc[0] == "ok":
+                    m = model[find(n)]
+                    m.struct, m.values = st_struct, st_values
+                res.count("undo_replacements")
             elif op == "readback":
                 # reading a filter back is not supposed to change what is generated afterwards
                 for getter in ("get_filter_conditions", "get_filter_actions", "get_filter_matchtype", "getfilter", "is_filter_disabled"):
@@ -226,6 +244,7 @@ def run(ch, config, res):
                     failure = Failure(PROP, "C06.parser", "%s: the generated script is rejected by the parser (%s):\n%s" % (label, err or errb, text), {})
                     break
                 fs, fsb = f2, fb2
+                stash[0] = None
                 restarted = True
                 res.count("restarts")
         failure, text = check_render(fs, fsb, model, label)
